@@ -251,6 +251,17 @@ impl<'tcx> Cx<'tcx> {
 				}
 				match c.const_ {
 					Const::Val(..) | Const::Ty(..) => {
+						if let Const::Val(val, _) = c.const_ {
+							if matches!(t.kind(), ty::Ref(_, inner, _) if inner.is_str()) {
+								if let Some(bytes) = val.try_get_slice_bytes_for_diagnostics(self.tcx) {
+									if bytes.len() <= 64 {
+										if let Ok(st) = std::str::from_utf8(bytes) {
+											let _ = write!(o, ",\"s\":{}", esc(st));
+										}
+									}
+								}
+							}
+						}
 						let env = TypingEnv::post_analysis(self.tcx, owner.to_def_id());
 						if t.is_integral() || t.is_bool() || t.is_char() {
 							if let Some(si) = c.const_.try_eval_scalar_int(self.tcx, env) {
